@@ -65,6 +65,7 @@ class Result(object):
     def __init__(self):
         self.queries = 0
         self.solver_s = 0.0
+        self.max_query_s = 0.0
         self.transitions = 0
         self.states = 0
         self.discharged = []  # (window, prop, regime)
@@ -111,6 +112,7 @@ def check_window(window, depth, max_preempt, timeout_s, result, regime):
     res, model, dt = solve(cons, [z3.Or(*over)] if over else [z3.BoolVal(False)], timeout_s)
     result.queries += 1
     result.solver_s += dt
+    result.max_query_s = max(result.max_query_s, dt)
     if res == "sat":
         result.inconclusive.append("window={0} regime={1} reason=universe bound exceeded (queue capacity / worker slots / counter width)".format(window.name, regime))
     elif res != "unsat":
@@ -136,6 +138,7 @@ def check_window(window, depth, max_preempt, timeout_s, result, regime):
     res, model, dt = solve(cons, [z3.Or(*everything)], timeout_s)
     result.queries += 1
     result.solver_s += dt
+    result.max_query_s = max(result.max_query_s, dt)
     if res == "unsat":
         for prop in window.props:
             result.discharged.append((window.name, prop.name, regime))
@@ -158,6 +161,7 @@ def check_window(window, depth, max_preempt, timeout_s, result, regime):
         res, model, dt = solve(cons, [z3.Or(*bad)], timeout_s)
         result.queries += 1
         result.solver_s += dt
+        result.max_query_s = max(result.max_query_s, dt)
         if res == "unsat":
             result.discharged.append((window.name, prop.name, regime))
         elif res == "sat":
@@ -176,6 +180,7 @@ def check_window(window, depth, max_preempt, timeout_s, result, regime):
         res, model, dt = solve(cons, goal, timeout_s)
         result.queries += 1
         result.solver_s += dt
+        result.max_query_s = max(result.max_query_s, dt)
         if res == "sat":
             schedule = un.schedule_from_model(model)
             result.twins.append((window.name, regime, schedule))
